@@ -73,4 +73,11 @@ def run(op, a):
                 [len(t.serialize()) for t in blk.vtx],
                 len(blk.serialize(dict(include_witness=False))), len(blk.serialize()),
                 obs(blk.GetWeight)]
+    if op == 7:
+        from .txconv import tx_from_val
+        return tx_from_val(a[0]).calc_weight()
+    if op == 8:
+        from .C02 import make_block
+        from .txconv import tx_from_val
+        return make_block(a[0][0], [tx_from_val(t) for t in a[0][1]]).GetWeight()
     raise ValueError('op')
